@@ -293,6 +293,54 @@ def lean_list(xs):
     return "[" + ", ".join(lean_str(x) for x in xs) + "]"
 
 
+# --- the scanner-level implicit-logging switch (src/gallia/command/uds.py) -------------------------------------------------
+u_src = (REPO / "src/gallia/command/uds.py").read_text()
+utree = ast.parse(u_src)
+
+
+def ordered_calls(fn):
+    """calls and the assignment to self.ecu of a function body, in source order"""
+    items = []
+    for n in ast.walk(fn):
+        if isinstance(n, ast.Call):
+            items.append((n.lineno, n.col_offset, ast.unparse(n.func)))
+        if isinstance(n, ast.Assign) and ast.unparse(n.targets[0]) == "self.ecu":
+            items.append((n.lineno, -1, "=self.ecu"))
+    return [x[2] for x in sorted(items)]
+
+
+TOK = {"=self.ecu": "create-ecu", "self._apply_implicit_logging_setting": "apply", "super().setup": "super-setup",
+       "self.db_handler.insert_scan_run": "insert_scan_run", "self.db_handler.insert_scan_run_properties_pre": "properties_pre",
+       "self.db_handler.complete_scan_run": "complete_scan_run", "self.ecu.connect": "connect"}
+setup_fn = func(utree, "setup", "UDSScanner")
+setup_events = []
+for c in ordered_calls(setup_fn):
+    if c in TOK:
+        setup_events.append(TOK[c])
+    elif c.startswith("self.ecu.") and c != "self.ecu.connect":
+        setup_events.append("request")     # ecu_reset, set_session, wait_for_ecu, start_cyclic_tester_present, properties
+if "create-ecu" not in setup_events:
+    die("UDSScanner.setup: self.ecu = ...")
+setter = None
+for n in ast.walk(utree):
+    if isinstance(n, ast.ClassDef) and n.name == "UDSScanner":
+        for m in n.body:
+            if isinstance(m, ast.FunctionDef) and m.name == "implicit_logging" and any(
+                    ast.unparse(d) == "implicit_logging.setter" for d in m.decorator_list):
+                setter = m
+if setter is None:
+    die("UDSScanner.implicit_logging setter")
+setter_body = [ast.unparse(x).replace("\n", " ").replace("    ", " ") for x in setter.body]
+apply_fn = func(utree, "_apply_implicit_logging_setting", "UDSScanner")
+apply_body = [ast.unparse(x) for x in apply_fn.body]
+b_src = (REPO / "src/gallia/command/base.py").read_text()
+btree = ast.parse(b_src)
+ep = [c for c in ordered_calls(func(btree, "entry_point", "BaseCommand")) if c in ("self._db_insert_run_meta", "self.run", "self._db_finish_run_meta")]
+ecu_default = None
+for n in ast.walk(func(tree, "__init__", "ECU")):
+    if isinstance(n, ast.Assign) and ast.unparse(n.targets[0]) == "self.implicit_logging":
+        ecu_default = ast.unparse(n.value)
+
 # --- attribute shapes ------------------------------------------------------------------------------------------------
 SH = {"i": ".int", "b": ".bool", "n": ".null", "s": ".str", "f": ".float", "y": ".bytes", "E": ".enum"}
 
@@ -393,6 +441,15 @@ def foreignKeys : List (String × String × String × String × Bool) := [
 def primaryKeys : List (String × String × String) := [{", ".join("(" + ", ".join(lean_str(x) for x in pk) + ")" for pk in pks)}]
 def uniqueColumns : List (String × String) := [{", ".join("(" + ", ".join(lean_str(x) for x in u) + ")" for u in uniques)}]
 def connectPragmas : List String := {lean_list(pragmas)}
+
+/-- the scanner-level implicit-logging switch (AST): the statements of `UDSScanner.setup()` that matter, in source order
+    (`request` = any call on `self.ecu` that sends requests or starts the tester-present task); the body of the property setter
+    and of `_apply_implicit_logging_setting`; the default of the ECU object; the order inside `entry_point()` -/
+def setupEvents : List String := {lean_list(setup_events)}
+def setterBody : List String := {lean_list(setter_body)}
+def applyBody : List String := {lean_list(apply_body)}
+def ecuFlagDefault : String := {lean_str(ecu_default or "")}
+def entryPointOrder : List String := {lean_list(ep)}
 
 /-- (class, attribute, shape of the value) for every sample request / response object -/
 def attrShapes : List (String × String × Shape) := [
